@@ -1673,10 +1673,11 @@ func (vc *VC) evalPure(fn *ssa.Function, args []Val, st *State, parent *Frame) [
 		if o.Panic {
 			continue
 		}
+		// a fact holds under the branch guards that precede it on the path (not under later ones)
 		var guards, facts []Term
 		for k := base; k < len(o.St.pc); k++ {
 			if k < len(o.St.isFact) && o.St.isFact[k] {
-				facts = append(facts, o.St.pc[k])
+				facts = append(facts, Implies(And(guards...), o.St.pc[k]))
 			} else {
 				guards = append(guards, o.St.pc[k])
 			}
@@ -1685,7 +1686,7 @@ func (vc *VC) evalPure(fn *ssa.Function, args []Val, st *State, parent *Frame) [
 		// facts established along this path (assumed contracts of callees, ...) hold
 		// whenever the path is taken: hand them to the caller
 		for _, f := range facts {
-			st.Fact(Implies(cond, f))
+			st.Fact(f)
 		}
 		// memory effects of the evaluated call on fresh cells are kept so returned
 		// slices/pointers remain readable
